@@ -126,6 +126,11 @@ func (a *algo) ctxArg(e ast.Expr, env aenv) string {
 }
 
 func (a *algo) rblock(list []ast.Stmt, env aenv, tail string) string {
+	if len(list) > 0 {
+		if sw, ok := list[0].(*ast.SwitchStmt); ok {
+			list = append([]ast.Stmt{switchToIf(sw)}, list[1:]...)
+		}
+	}
 	if len(list) == 0 {
 		if tail == "" {
 			bail("control reaches the end of a render function")
